@@ -215,9 +215,10 @@ def run_check(modname, tier, seed, jobs=None):
 
     errors = [r for r in results if "error" in r]
     if errors:
-        for r in errors:
-            sys.stderr.write("HARNESS-ERROR in shard %r\n%s\n" % (
-                r.get("spec"), r["error"]))
+        r = errors[0]
+        sys.stderr.write("HARNESS-ERROR in %d shard(s); first: %r\n%s\n" % (
+            len(errors), {k: v for k, v in (r.get("spec") or {}).items()
+                          if k != 'known'}, r["error"][-3000:]))
         return 2
 
     evaluations = 0
